@@ -8,8 +8,11 @@ package main
 import (
 	"encoding/json"
 	"fmt"
+	gnarklogger "github.com/consensys/gnark/logger"
+	"github.com/rs/zerolog"
 	"os"
 	"strconv"
+	"worldcoin/gnark-mbu/logging"
 )
 
 type Result struct {
@@ -63,6 +66,10 @@ func seed() int64 {
 var commands = map[string]func(args []string){}
 
 func main() {
+	gnarklogger.Disable()
+	if os.Getenv("VERIF_LOG") == "" {
+		*logging.Logger() = zerolog.Nop()
+	}
 	if len(os.Args) < 2 {
 		die("usage: vh <command> --cases file")
 	}
